@@ -2102,6 +2102,7 @@ func (s *swamp) CreateTreasure(key string) treasure.Treasure {
 
 	s.createMu.Lock()
 	defer s.createMu.Unlock()
+	verifhook.Point("swamp.createTreasure.locked")
 
 	// return with the original treasure if it is existing in the beacon
 	if treasureObj := s.beaconKey.Get(key); treasureObj != nil {
@@ -2113,6 +2114,7 @@ func (s *swamp) CreateTreasure(key string) treasure.Treasure {
 		return v.(treasure.Treasure)
 	}
 
+	verifhook.Point("swamp.createTreasure.building")
 	t := treasure.New(s.SaveFunction)
 	guardID := t.StartTreasureGuard(true, guard.BodyAuthID)
 	t.BodySetKey(guardID, key)
